@@ -52,7 +52,7 @@ POOL_TB = TB_COMMON + [
 ]
 
 def pool_thms(names):
-    return [("GcpVerif.Proofs.Pool", "GcpVerif.Pool." + n) for n in names]
+    return [("GcpVerif.Proofs.PoolStreams", "GcpVerif.Pool." + n) for n in names]
 
 def pool_prop(thms, extra_assumptions=()):
     return {"harnesses": ["pool"], "lake_targets": ["GcpVerif"], "theorems": pool_thms(thms),
@@ -83,16 +83,16 @@ PROPS = {
                           "marshal_error_passthrough", "parse_marshal", "unmarshal_is_inner", "readVarint_varint"]],
             "leanchecker": ["GcpVerif.Proofs.Checksum"],
             "trusted_base": CK_TB, "assumptions": ["the message type does not define field 2047 itself"]},
-    "C01": pool_prop([]),
-    "C02": pool_prop([], ["placement and increment are treated as one atomic step (exact for picks on one picker; picks on different pickers may interleave scan and increment)"]),
-    "C03": pool_prop([], ["size bound: minSize <= maxSize and no Shutdown report for a current pool member (known finding K6)"]),
+    "C01": pool_prop(["bound_ready_home", "bound_notready_no_fallback", "unknown_key", "bind_bound_key_noop", "bind_new_key", "unbind_removes", "unbind_other", "lookup_preserves_binding"]),
+    "C02": pool_prop(["streams_exact", "streams_nonneg", "streams_zero_when_idle", "run_inv", "leastBusy_spec", "leastBusy_first_on_tie", "below_watermark_places"], ["placement and increment are treated as one atomic step (exact for picks on one picker; picks on different pickers may interleave scan and increment)"]),
+    "C03": pool_prop(["growth_only_when_saturated", "at_max_places_anyway", "below_watermark_places"], ["size bound: minSize <= maxSize and no Shutdown report for a current pool member (known finding K6)"]),
     "C04": pool_prop([]),
     "C05": pool_prop([]),
     "C06": pool_prop([], ["wall-clock bounds are observed by the harness watchdog (3 s per call), not proved"]),
-    "C07": pool_prop([], ["unresponsive_detection_ms * 2^k < 2^32 (the Go code computes the window in uint32; known finding K2)"]),
-    "C08": pool_prop([]),
-    "C09": pool_prop([], ["fairness: the cursor does not pass 2^32-1 inside the window unless n divides 2^32 (known finding K1); no Shutdown report for a pool member"]),
-    "C20": pool_prop([]),
+    "C07": pool_prop(["disabled_never_refreshes", "response_resets", "isResponse_iff", "stale_call_ignored", "refresh_trigger", "window_exponential", "refresh_once"], ["unresponsive_detection_ms * 2^k < 2^32 (the Go code computes the window in uint32; known finding K2)"]),
+    "C08": pool_prop(["fallback_sticky", "fallback_new", "bound_ready_home", "lookup_preserves_binding"]),
+    "C09": pool_prop(["rr_next_slot", "rrSlot_succ"], ["fairness: the cursor does not pass 2^32-1 inside the window unless n divides 2^32 (known finding K1); no Shutdown report for a pool member"]),
+    "C20": pool_prop(["resolver_error_identity"]),
     "C13": {
         "harnesses": ["me"], "lake_targets": ["GcpVerif"],
         "theorems": me_thms(["c13_mem_holds", "c13_mem_init", "c13_unavail_excluded_holds", "c13_noavail_holds", "c13_empty_holds", "reach_inv"]),
